@@ -30,6 +30,7 @@ func runC07(c *Ctx) {
 	r.Rule("R6-empty-claims-and-legacy-table", "no header for an empty claim value; legacy flags select their header groups as documented", 6)
 	r.Rule("R7-claim-field-table", "GetClaim answers each claim name from the session field of that name only; nothing for unknown claims or a nil session", 9)
 	r.Rule("R8-gap-auth-replaced", "with signing configured, GAP-Auth is overwritten from the proxy's own response header before every hand-off to an upstream handler", 2)
+	r.Rule("R9-session-belongs-to-request", "the session the injectors read is this request's own: bearer claims are decoded into a per-invocation object (shared with C04.R8) and a request that waited for the refresh lock continues with the reloaded session (shared with C12.R2)", 4)
 	r.Rule("R5-legacy-conversion", "PreserveRequestValue = !SkipAuthStripHeaders applied to every element after the last append", 1)
 
 	// ---- R1 ---------------------------------------------------------------------------------
@@ -402,6 +403,10 @@ func runC07(c *Ctx) {
 	runC07R6(c)
 	runC07R7(c, "R7-claim-field-table")
 	runC07R8(c, "R8-gap-auth-replaced")
+	runC04R8(c, "R9-session-belongs-to-request")
+	if a := c.c12Anchors("R9-session-belongs-to-request"); a != nil {
+		c.checkRefreshProtocol("R9-session-belongs-to-request", a)
+	}
 }
 
 // fromRequestParam: v is *(&req.Header) for the given request parameter.
